@@ -332,7 +332,29 @@ class Program:
                                 alarm.add(tt.attr)
                             elif k == "loop":
                                 loop.add(tt.attr)
-        self._field_roles = {"alarm": alarm, "loop": loop, "mutable": mutable, "interval": interval}
+        # fields that mark a request that is never armed (QoS 0): set to None in the very block that gives the request an already
+        # fired Deferred (defer.succeed) - testing one of them for None/falsy is testing "has no retry timer"
+        qos0 = set()
+        for f in self.funcs.values():
+            for blk in ast.walk(f.node):
+                body = getattr(blk, "body", None)
+                for stmts in (body, getattr(blk, "orelse", None)):
+                    if not isinstance(stmts, list):
+                        continue
+                    pre = [s for s in stmts if isinstance(s, ast.Assign) and isinstance(s.value, ast.Call) and (
+                        (isinstance(s.value.func, ast.Attribute) and s.value.func.attr == "succeed") or
+                        (isinstance(s.value.func, ast.Name) and s.value.func.id == "succeed"))
+                        and len(s.targets) == 1 and isinstance(s.targets[0], ast.Attribute)]
+                    if not pre:
+                        continue
+                    base = ast.unparse(pre[0].targets[0].value)
+                    for s in stmts:
+                        if isinstance(s, ast.Assign) and isinstance(s.value, ast.Constant) and s.value.value is None:
+                            for t in s.targets:
+                                for tt in (t.elts if isinstance(t, (ast.Tuple, ast.List)) else [t]):
+                                    if isinstance(tt, ast.Attribute) and ast.unparse(tt.value) == base:
+                                        qos0.add(tt.attr)
+        self._field_roles = {"alarm": alarm, "loop": loop, "mutable": mutable, "interval": interval, "qos0": qos0 | interval}
         return self._field_roles
 
     # ---- name resolution -------------------------------------------------
